@@ -24,40 +24,46 @@ package types
 //@ func (*Decoder).decodeUintFromReader
 //@   props C12 C13 C14
 //@   spec nat.smt2
+//@   opt slow=3
 //@   requires wf: wf_dec(d)
 //@   ensures wf: wf_dec(d)
 //@   let i0 = d.buf.i
 //@   ensures [cases spec.nat_l(result0) 0..8] strict: result1 == nil ==> d.buf.i == i0 + int64(spec.nat_len(result0)) && forall(k, 0, 9, k < int(spec.nat_len(result0)) ==> d.buf.s[int(i0)+k] == spec.nat_byte(result0, uint64(k)))
 //@   ghost x uint64
 //@   ensures [cases spec.nat_l(x) 0..8] complete: (int64(len(d.buf.s)) - i0 >= int64(spec.nat_len(x)) && forall(k, 0, 9, k < int(spec.nat_len(x)) ==> d.buf.s[int(i0)+k] == spec.nat_byte(x, uint64(k)))) ==> (result1 == nil && result0 == x)
-//@   assigns *d.buf
+//@   assigns d.buf.i, d.buf.prevRune
 
 //@ func (*Decoder).DecodeLength
 //@   props C13 C14
+//@   spec nat.smt2
 //@   requires wf: wf_dec(d)
 //@   ensures wf: wf_dec(d)
-//@   assigns *d.buf
+//@   ensures bounded: result1 == nil ==> result0 <= uint64(len(d.buf.s)) - uint64(d.buf.i)
+//@   ensures failed: result1 != nil ==> result0 == 0
+//@   let i0 = d.buf.i
+//@   ensures [cases spec.nat_l(result0) 0..8] strict: result1 == nil ==> d.buf.i == i0 + int64(spec.nat_len(result0)) && forall(k, 0, 9, k < int(spec.nat_len(result0)) ==> d.buf.s[int(i0)+k] == spec.nat_byte(result0, uint64(k)))
+//@   assigns d.buf.i, d.buf.prevRune
 
 //@ func (*Decoder).DecodeInteger
 //@   props C13 C14
 //@   requires wf: wf_dec(d)
 //@   ensures wf: wf_dec(d)
-//@   assigns *d.buf
+//@   assigns d.buf.i, d.buf.prevRune
 
 //@ func (*Decoder).ReadPointerFlag
 //@   props C13 C14
 //@   requires wf: wf_dec(d)
 //@   ensures wf: wf_dec(d)
-//@   assigns *d.buf
+//@   assigns d.buf.i, d.buf.prevRune
 
 //@ func (*Decoder).ReadLegnthFlag
 //@   props C13 C14
 //@   requires wf: wf_dec(d)
 //@   ensures wf: wf_dec(d)
-//@   assigns *d.buf
+//@   assigns d.buf.i, d.buf.prevRune
 
 //@ func (*Decoder).ReadErrorByte
 //@   props C13 C14
 //@   requires wf: wf_dec(d)
 //@   ensures wf: wf_dec(d)
-//@   assigns *d.buf
+//@   assigns d.buf.i, d.buf.prevRune
